@@ -36,6 +36,19 @@ def run(ctx):
     ctx.rule("C16.flag-consumed", "value cursor starts after the new-params-bound byte on both branches")
     ctx.rule("C16.types-used", "value parsing and reported coltype use entry `col` of the table")
 
+    # the element type of the per-statement type table (a (ColumnType, bool) pair, or a small struct of the two)
+    global VEC_TY
+    VEC_TY = "(myc::constants::ColumnType, bool)"
+    for p_, a in prog.adts.items():
+        if p_.endswith("StatementData") and a["local"] and a.get("variants"):
+            for f in a["variants"][0]["fields"]:
+                m_ = re.match(r"std::vec::Vec<(.+)>$", f["ty"])
+                if f["name"] == "bound_types" and m_:
+                    el = m_.group(1)
+                    ea = prog.adts.get(el)
+                    if el != VEC_TY and ea is not None and ea.get("local") and ea.get("variants") and \
+                            sorted(x["ty"] for x in ea["variants"][0]["fields"]) == ["bool", "myc::constants::ColumnType"]:
+                        VEC_TY = el
     # ---- storage ----------------------------------------------------------------------------
     owners = []
     for p_, a in prog.adts.items():
@@ -167,7 +180,12 @@ def run(ctx):
     # what is pushed: (try_from(typmap[2i]), typmap[2i+1] & 0x80 != 0) relative to the byte after the flag
     for pb in pushes:
         val = nxt.arg_origin(pb, 1)
-        ok = val[0] == "agg" and val[1] == "tuple" and len(val[4]) == 2
+        ok = val[0] == "agg" and len(val[4]) == 2 and (val[1] == "tuple" or (val[1] == "adt" and val[2] == VEC_TY))
+        if ok and val[1] == "adt":
+            # struct form: order the two fields as (type, unsigned) by their values' shapes
+            f0, f1 = val[4]
+            if isinstance(f0, tuple) and f0[0] == "bin":
+                val = (val[0], val[1], val[2], val[3], (f1, f0)) + tuple(val[5:])
         why = "pushed value is %s" % term_str(val)[:160]
         if ok:
             ty, uns = val[4]
@@ -238,9 +256,14 @@ def run(ctx):
             ct = nxt.arg_origin(bb, 1)
             un = nxt.arg_origin(bb, 2)
             def entry_of(x, fld):
-                # field(index(bound_types, cast(col)), fld)
-                if not (isinstance(x, tuple) and x[0] == "field" and x[3] == fld):
+                # field(index(bound_types, cast(col)), fld)  — tuple position, or the struct field of that type
+                if not (isinstance(x, tuple) and x[0] == "field"):
                     return False
+                if x[3] != fld:
+                    ea_ = prog.adts.get(VEC_TY)
+                    want_ty = "myc::constants::ColumnType" if fld == 0 else "bool"
+                    if not (ea_ and any(ff["name"] == x[2] and ff["ty"] == want_ty for ff in ea_["variants"][0]["fields"])):
+                        return False
                 e = x[1]
                 if T.is_call(e, r"Index<.*>>::index$|Index::index$"):
                     return T.is_field(T.peel(e[2][0]), "bound_types") and T.affine(e[2][1]) == Aff(0, {("path", "self", "col"): 1})
